@@ -243,7 +243,7 @@ func afRandomCases(seed int64, n int, mode string, maxEntries, maxBody int) []*a
 					entries++
 				}
 			}
-			c.Conf = afConf{Chosen: []string{}, Take: 2*entries + 1, Preload: k%2 == 1} // decoding is the same preloaded
+			c.Conf = afConf{Chosen: []string{}, Take: 2*entries + 1, Preload: k%2 == 1, Rep: []string{"absent", "null", "empty"}[k%3]} // decoding is the same preloaded
 			if mode == "c14" {
 				c.Conf.Preload = r.Intn(2) == 0
 				if r.Intn(2) == 0 {
